@@ -35,6 +35,8 @@ class CGen:
     # ---------------------------------------------------------------- exprs
     def const(self):
         ch = self.ch
+        if self.profile == "micro":
+            return str(ch.draw(100, "microconst"))
         if ch.chance(1, 3, "bigconst"):
             return ch.pick(BIGS, "big")
         if self.profile == "rich" and ch.chance(1, 12, "predefmacro"):
@@ -44,6 +46,8 @@ class CGen:
         return str(ch.draw(17, "small"))
 
     def binops(self):
+        if self.profile == "micro":
+            return ["+", "-", "+"]
         ops = ["+", "-", "&", "|", "^"]
         if self.profile == "rich":
             ops += ["*", "*", "/", "%"]
@@ -70,7 +74,11 @@ class CGen:
                 idx = ch.pick(vars_, "stridx") if vars_ else "1"
                 return f"{t}[({idx}) & {n - 1}][0]"
             return self.const()
-        k = ch.weighted([8, 2, 1, 2, 1], "exprkind")
+        if self.profile == "micro":
+            # 16 bit and minimal back-ends: additive expressions and calls
+            k = ch.weighted([8, 0, 0, 0, 2], "exprkind")
+        else:
+            k = ch.weighted([8, 2, 1, 2, 1], "exprkind")
         if k == 0:
             op = ch.pick(self.binops(), "binop")
             lhs = self.expr(vars_, depth - 1)
@@ -92,7 +100,7 @@ class CGen:
             name, n = ch.pick(self.fptrs, "fptr")
             args = ", ".join(self.expr(vars_, depth - 2) for _ in range(n))
             return f"{name}({args})"
-        if self.funcs and self.profile != "tiny":
+        if self.funcs and self.profile not in ("tiny",):
             name, n = ch.pick(self.funcs, "callee")
             args = ", ".join(self.expr(vars_, depth - 2) for _ in range(n))
             return f"{name}({args})"
@@ -105,14 +113,22 @@ class CGen:
         out = []
         n = 1 + ch.draw(4, "nstmt")
         for _ in range(n):
-            kinds = [6, 2, 2, 1 if self.profile != "tiny" else 0, 1]
+            kinds = [6, 2, 2,
+                     1 if self.profile not in ("tiny", "micro") else 0,
+                     1 if self.profile != "micro" else 0]
             k = ch.weighted(kinds, "stmt") if depth > 0 else 0
             if k == 0:
                 tgt = ch.pick(vars_, "tgt")
-                op = ch.pick(["=", "+=", "^=", "-="], "asg")
+                op = ch.pick(["=", "+=", "^=", "-="] if self.profile != "micro"
+                             else ["=", "=", "+=", "-="], "asg")
                 out.append(f"{pad}{tgt} {op} {self.expr(vars_, 2)};")
             elif k == 1:
-                out.append(f"{pad}if ({self.expr(vars_, 2)}) {{")
+                cond = self.expr(vars_, 2)
+                if self.profile == "micro":
+                    cond = (f"{self.expr(vars_, 1)} "
+                            f"{ch.pick(['<', '>', '==', '!='], 'mcmp')} "
+                            f"{self.expr(vars_, 1)}")
+                out.append(f"{pad}if ({cond}) {{")
                 out += self.block(vars_, depth - 1, indent + 1)
                 if ch.chance(1, 2, "else"):
                     out.append(f"{pad}}} else {{")
@@ -147,7 +163,7 @@ class CGen:
 
     def function(self, idx):
         ch = self.ch
-        tiny = self.profile == "tiny"
+        tiny = self.profile in ("tiny", "micro")
         nparams = ch.draw(3 if tiny else 5, "nparams")
         nlocals = 1 + ch.draw(3 if tiny else 9, "nlocals")
         name = f"{self.fn_prefix}{idx}"
@@ -169,7 +185,7 @@ class CGen:
 
     def unit(self):
         ch = self.ch
-        tiny = self.profile == "tiny"
+        tiny = self.profile in ("tiny", "micro")
         out = []
         gp = self.glob_prefix
         for i in range(ch.draw(4, "nglob")):
